@@ -44,7 +44,12 @@ Definition judge (k : c08case) : N :=
   (* guard classes: 1 = a found header defined by content; 2 = a schema-level guard of C01 *)
   let hdr_content := existsb (fun rd => existsb (fun h => is_none (h_schema h)) (r_headers (snd rd))) (k8_responses k) in
   let g := g_resp rc rm fo (k8_opts k) (k8_status k) (k8_responses k) (k8_ct k) (k8_body k) in
-  let gc : N := if hdr_content then 1%N else if negb g then 2%N else 0%N in
+  let enum_bad := match select_response (k8_responses k) (k8_status k) with
+                  | Some d => match content_get (r_content d) (k8_ct k) with
+                              | Some m => match m_schema m with Some s => negb (g_enum true s) | None => false end
+                              | None => false end
+                  | None => false end in
+  let gc : N := if hdr_content then 1%N else if enum_bad then 3%N else if negb g then 2%N else 0%N in
   if agree then (if same then J_OK else if N.eqb gc 0 then J_DRIFT else J_NOTE)
   else if same && negb (N.eqb gc 0) then J_KNOWN gc
   else J_VIOL.
